@@ -372,20 +372,20 @@ func checkC08(c *checkCtx) {
 			}
 		}
 		// fallback functions are user code too
-		var fbStart time.Duration = -1
+		fbStart := map[int]time.Duration{} // per task: fallback functions of concurrent hedge attempts overlap
 		for _, e := range v.Events {
 			if e.Kind == EvFallbackFn {
-				fbStart = e.T
+				fbStart[e.Task] = e.T
 			}
-			if e.Kind == EvFallbackFnEnd && fbStart >= 0 {
-				a := fbStart
+			if st, ok := fbStart[e.Task]; ok && e.Kind == EvFallbackFnEnd {
+				a := st
 				if a < tc {
 					a = tc
 				}
 				if e.T > a {
 					inFn += e.T - a
 				}
-				fbStart = -1
+				delete(fbStart, e.Task)
 			}
 		}
 		if late := v.OpEnd.T - tc; late > inFn {
